@@ -1279,6 +1279,9 @@ func (sq *Queue) isRoot() bool {
 func (sq *Queue) TryIncAllocatedResource(alloc *resources.Resource) error {
 	// check this queue: failure stops checks if the allocation is not part of a node addition
 	if !sq.allocatedResFits(alloc) {
+		// the message reads the usage and the maximum: other goroutines update them under the queue lock
+		sq.RLock()
+		defer sq.RUnlock()
 		return fmt.Errorf("allocation (%v) puts queue '%s' over maximum allocation (%v), current usage (%v)",
 			alloc, sq.QueuePath, sq.maxResource, sq.allocatedResource)
 	}
@@ -1288,12 +1291,14 @@ func (sq *Queue) TryIncAllocatedResource(alloc *resources.Resource) error {
 			// only log the warning if we get to the leaf: otherwise we could spam the log with the same message
 			// each time we return from a recursive call. Worst case (hierarchy depth-1) times.
 			if sq.isLeaf {
+				sq.RLock()
 				log.Log(log.SchedQueue).Warn("parent queue exceeds maximum resource",
 					zap.String("leafQueue", sq.QueuePath),
 					zap.Stringer("allocationRequest", alloc),
 					zap.Stringer("queueUsage", sq.allocatedResource),
 					zap.Stringer("maxResource", sq.maxResource),
 					zap.Error(err))
+				sq.RUnlock()
 			}
 			return err
 		}
@@ -1366,6 +1371,9 @@ func (sq *Queue) DecAllocatedResource(alloc *resources.Resource) error {
 
 	// check this queue: failure stops checks
 	if alloc != nil && !sq.resourceFitsAllocated(alloc) {
+		// the message reads the usage: other goroutines update it under the queue lock
+		sq.RLock()
+		defer sq.RUnlock()
 		return fmt.Errorf("released allocation (%v) is larger than '%s' queue allocation (%v)",
 			alloc, sq.QueuePath, sq.allocatedResource)
 	}
@@ -1375,12 +1383,14 @@ func (sq *Queue) DecAllocatedResource(alloc *resources.Resource) error {
 			// only log the warning if we get to the leaf: otherwise we spam the log with the same message
 			// each time we return from a recursive call. Worst case (hierarchy depth-1) times.
 			if sq.isLeaf {
+				sq.RLock()
 				log.Log(log.SchedQueue).Warn("released allocation is larger than parent queue allocated resource",
 					zap.String("leafQueue", sq.QueuePath),
 					zap.Stringer("allocationRequest", alloc),
 					zap.Stringer("queueUsage", sq.allocatedResource),
 					zap.Stringer("maxResource", sq.maxResource),
 					zap.Error(err))
+				sq.RUnlock()
 			}
 			return err
 		}
